@@ -323,6 +323,7 @@ SRCF_UNITS = [
     ] + [("EUI", "_set_value:%s_%s" % (m, t), {"value": t, "self.*": "state"}) for m in ("implicit", "eui48", "eui64") for t in ("str", "int")] + [
         ("EUI", "__init__:%s" % t, {"addr": t, "version": "optint", "dialect": "darg", "self.*": "state"}) for t in ("int", "str", "eui")] + [
         ("EUI", "__setstate__", {"state": "tup:int,int,darg", "self.*": "state"}), ("IAB", "split_iab_mac", {"strict": "bool"}),
+        ("EUI", "__index__", {}), ("EUI", "__long__", {}),
     ]),
 ]
 # netaddr/eui/ieee.py (property C19): the two index parsers.  The pseudo-parameter "self.fh" makes the file object the parser reads
